@@ -99,3 +99,6 @@ def run_proofs(ctx):
     from vf.proofs.plumbing import run_plumbing
 
     run_plumbing(ctx)
+    from vf.proofs._conformance import find_nulls_drop_rows
+
+    find_nulls_drop_rows(ctx, "C06")
